@@ -262,6 +262,22 @@ theorem C05_untrack_missing_becomes_file (s : St) (p : Path) (a : Addr) (o : Obj
   have hrt : (s.readThrough p).isSome = false := by simp [St.readThrough, hw]
   simp [hrt, hw, ho, upd]
 
+/-- a target that is a read-only regular file (a hard link whose object was removed from the cache before,
+    F27) is replaced by a writable copy of itself -/
+theorem C05_untrack_readonly_becomes_writable (s : St) (p : Path) (b : Bytes) (st : Nat) (l : Option Addr)
+    (hw : s.ws p = some (.file b false st l)) :
+    (s.selfCopy p).ws p = some (.file b true s.clock none) := by
+  unfold St.selfCopy
+  simp [hw, St.setWs, St.tick]
+
+/-- the whole scenario: hard link, object removed from the cache, untrack: a writable file with the bytes -/
+theorem C05_untrack_detached_hardlink_witness :
+    let s0 := ((St.init.userWrite ⟨0, 1⟩ [104]).track {} { method := some .hardlink } [⟨0, 1⟩]).1
+    let s1 := (s0.remove [⟨0, 1⟩] .all false).1
+    s1.ws ⟨0, 1⟩ = some (.file [104] false 1 none) ∧
+    (s1.untrack [⟨0, 1⟩]).1.ws ⟨0, 1⟩ = some (.file [104] true 2 none) ∧ (s1.untrack [⟨0, 1⟩]).1.recs 1 = none := by
+  decide
+
 /-- …and the whole command on such a target: the file is back, the record is gone -/
 theorem C05_untrack_missing_witness :
     let s0 := ((St.init.userWrite ⟨0, 1⟩ [104]).track {} { method := some .symlink } [⟨0, 1⟩]).1
@@ -329,3 +345,7 @@ open Repo in
 #print axioms C05_untrack_missing_becomes_file
 open Repo in
 #print axioms C05_untrack_missing_witness
+open Repo in
+#print axioms C05_untrack_readonly_becomes_writable
+open Repo in
+#print axioms C05_untrack_detached_hardlink_witness
